@@ -197,4 +197,25 @@ def insertById (x : Inst) : Desc → Desc
   | y :: ys => if x.id ≤ y.id then x :: y :: ys else y :: insertById x ys
 def sortById (d : Desc) : Desc := d.foldr insertById []
 
+/-! ## extension (C03): `RemoveTombstones` counters and sub-second limits, `MergeContent`, `Clone` -/
+
+/-- `time.Unix(ts, 0).Before(time.Unix(sec, nsec))` ⇔ `ts < limitOf sec nsec`: a limit with a non-zero
+nanosecond part lies strictly after the whole second `sec`. -/
+def limitOf (sec : Int) (nsec : Nat) : Int := if nsec > 0 then sec + 1 else sec
+
+/-- the entry is a tombstone that `RemoveTombstones(limit)` deletes (`none` = the zero time) -/
+def isTomb (limit : Option Int) (i : Inst) : Bool :=
+  i.state == .LEFT && (match limit with | none => true | some l => i.ts < l)
+
+/-- the two counters returned by `RemoveTombstones`: `(total, removed)` = LEFT entries kept, LEFT entries deleted -/
+def tombCounts (limit : Option Int) (d : Desc) : Nat × Nat :=
+  ((d.filter fun i => i.state == .LEFT && !isTomb limit i).length, (d.filter (isTomb limit)).length)
+
+/-- `MergeContent()`: the map keys (Go: in map order; compared as a sorted list) -/
+def mergeContent (d : Desc) : List String := ids d
+
+/-- `Clone()`: a descriptor with its own map holding the same entries. Model values are immutable, so
+the clone IS the value; what the code adds (own map, shared token storage) is checked by the `C03.clone` stream. -/
+def clone (d : Desc) : Desc := d
+
 end C03
